@@ -62,6 +62,8 @@ def gen_utt(rng, u, style):
     """One utterance. style 'tiled': tokens tile the utterance (neighbouring segments, assorted
     durations: some inside a window, some straddling window edges); 'random': arbitrary segments
     incl. missing (-1) and empty ones; 'tiny': a single frame."""
+    if style == "empty":      # (audit) an utterance without frames: no chunk (C10_dir_empty)
+        return {"id": rng.choice([f"e{u}", f"e.{u}"]), "T": 0, "ali": [], "ref": []}
     if style == "tiny":
         T = 1
     elif style == "tiled":
@@ -101,7 +103,7 @@ def gen_utts(rng, style=None):
     nutt = rng.randint(1, 4)
     utts = []
     for u in range(nutt):
-        st = style if style != "mixed" else rng.choice(["tiled", "random", "tiny"])
+        st = style if style != "mixed" else rng.choice(["tiled", "random", "tiny", "empty"])
         utts.append(gen_utt(rng, u, st))
     return utts
 
@@ -163,11 +165,29 @@ def gen_quick(rng, rounds=3):
                       {"format": "default", "has_ali": False})
 
 
+    # (audit) an utterance without frames next to ordinary ones, and alone: nothing is written for it, the run succeeds
+    for policy in POLICIES:
+        for valid in (True, False):
+            utts = [gen_utt(rng, 0, "empty")] + ([gen_utt(rng, 1, "tiled")] if rng.random() < 0.7 else [])
+            rng.shuffle(utts)
+            yield mk_case(rng, policy, valid, rng.random() < 0.5, rng.random() < 0.5, True, utts)
+    # (audit) a source whose ref/ files hold token ids only (1-D tensors: a well-formed SpectDataSet directory; the
+    # model has no such source): 'ref' must refuse (no segments), 'fixed' / 'ali' must not crash half-way
+    for policy in POLICIES:
+        for valid in (True, False):
+            c = mk_case(rng, policy, valid, rng.random() < 0.5, rng.random() < 0.5, True, gen_utts(rng, "tiled"))
+            c["ref_1d"] = True
+            yield c
+
+
 def gen_cases(rng, n):
     for i in range(n):
         opts = {k: v for k, v in ALT_OPTS.items() if rng.random() < 0.2}
-        yield mk_case(rng, rng.choice(POLICIES), rng.random() < 0.6, rng.random() < 0.4, rng.random() < 0.4,
-                      rng.random() < 0.7, gen_utts(rng), opts)
+        c = mk_case(rng, rng.choice(POLICIES), rng.random() < 0.6, rng.random() < 0.4, rng.random() < 0.4,
+                    rng.random() < 0.7, gen_utts(rng), opts)
+        if c["opts"]["has_ref"] and rng.random() < 0.05:
+            c["ref_1d"] = True
+        yield c
 
 
 # ----------------------------------------------------------------------------- running the command
@@ -183,6 +203,7 @@ def norm(case):
     c.setdefault("quiet", True)
     c.setdefault("feat_dtype", "float32")
     c.setdefault("omit_defaults", False)
+    c.setdefault("ref_1d", False)
     o = dict(DEFAULT_OPTS)
     o.update(c.get("opts") or {})
     c["opts"] = o
@@ -210,8 +231,11 @@ def write_dir(case, root):
         if "ali" in subs:
             torch.save(torch.tensor(u["ali"], dtype=torch.long), os.path.join(root, lay["ali"], name))
         if "ref" in subs:
-            torch.save(torch.tensor(u["ref"], dtype=torch.long).reshape(len(u["ref"]), 3),
-                       os.path.join(root, lay["ref"], name))
+            if case.get("ref_1d"):      # token ids only, no segment boundaries
+                ref = torch.tensor([tk[0] for tk in u["ref"]], dtype=torch.long)
+            else:
+                ref = torch.tensor(u["ref"], dtype=torch.long).reshape(len(u["ref"]), 3)
+            torch.save(ref, os.path.join(root, lay["ref"], name))
 
 
 def validate(root, case):
@@ -345,7 +369,7 @@ def model_request(case):
         # the command line as the model of the whole worker (`dirWorker`) takes it
         "pad_mode": case["pad_mode"], "pad_constant_ali": int(pad_value), "format": case["opts"]["format"],
         "prefix": lay["prefix"], "suffix": lay["suffix"], "has_ali": case["opts"]["has_ali"],
-        "has_ref": case["opts"]["has_ref"],
+        "has_ref": case["opts"]["has_ref"] and not case["ref_1d"],
         "utts": [{"id": u["id"], "T": u["T"], "ali": u["ali"], "ref": u["ref"]} for u in case["utts"]]}}
 
 
@@ -424,8 +448,48 @@ def windows_want(case, ws):
     return sorted({tuple(w) for w in ws})
 
 
+SIG_1D = "C10.dir.token_only_refs_index_error"
+
+
+def predicate_ref_1d(case, impl, model):
+    """Token-only ref/ files (1-D tensors). Policy 'ref' needs segments: the slicer's RuntimeError is the
+    documented refusal (raised by the first utterance that has a token). 'fixed' / 'ali': the token chunker
+    documents that it returns EMPTY results for 2-D refs; the worker then indexes row n of them. The listed
+    known finding is exactly: IndexError, policy not 'ref', some utterance has a prescribed window."""
+    err = impl.get("error") if isinstance(impl, dict) else None
+    if case["policy"] == "ref":
+        want = "RuntimeError" if any(u["ref"] for u in case["utts"]) else None
+        if err != want:
+            return [(f"token-only refs with --policy ref: expected {want}, got {err or 'no error'}", None)]
+        return []
+    if outside_chunker_domain(case, model):      # reflect padding not shorter than the utterance: the frame chunker
+        if err == "NotImplementedError":           # refuses first (it runs before the token chunker)
+            return []
+        if not err:
+            return [("reflect padding at least as long as the utterance was accepted", None)]
+    nwin = sum(len(m["spec"]) for m in model["utts"])
+    if nwin == 0:
+        return [(f"token-only refs, no window prescribed: raised {err}", None)] if err else []
+    if err == "IndexError":
+        return [(f"chunk-torch-spect-data-dir --policy {case['policy']} on a directory whose ref/ files hold token "
+                 f"ids only: IndexError after the first chunk's feat/ali files were written ({impl.get('message')})",
+                 SIG_1D)]
+    if err:
+        return [(f"token-only refs: chunk-torch-spect-data-dir raised {err}: {impl.get('message')}", None)]
+    # repaired behaviour (whatever is written to ref/): the feature chunks must still be the prescribed ones
+    fails = []
+    for u, m in zip(case["utts"], model["utts"]):
+        got = [list(w) for w in windows_of(case, impl["utts"].get(u["id"], []))]
+        if got != [list(w) for w in windows_want(case, m["spec"])]:
+            fails.append((f"utterance {u['id']}: chunks written for windows {got}, the policy prescribes {m['spec']}",
+                          None))
+    return fails
+
+
 def compare(case, impl, model):
     case = norm(case)
+    if case["ref_1d"]:          # the model of the worker has no token-only source; see predicate_ref_1d
+        return []
     want_err = expected_error(model)
     if "error" in impl:
         if want_err is not None and impl["error"] == want_err:
@@ -482,6 +546,8 @@ def outside_chunker_domain(case, model):
 
 def predicate(case, impl, model, sig_plus):
     case = norm(case)
+    if case["ref_1d"]:
+        return predicate_ref_1d(case, impl, model)
     if "error" in impl:
         if impl["error"] == "NotImplementedError" and outside_chunker_domain(case, model):
             return []
@@ -606,6 +672,10 @@ def tags(case, impl):
         if v != DEFAULT_OPTS[k]:
             t.append(f"dir:opt:{k}={v}")
     t.append(f"dir:feat_dtype={case['feat_dtype']}")
+    if case["ref_1d"]:
+        t.append(f"dir:ref_token_only:{case['policy']}")
+    if any(u["T"] == 0 for u in case["utts"]):
+        t.append(f"dir:utt_without_frames:{case['policy']}")
     if case["omit_defaults"]:
         for k, v, d in (("policy", case["policy"], "fixed"), ("window-type", case["wt"], "symmetric"),
                         ("lobe-size", case["lobe"], 0)):
